@@ -518,4 +518,168 @@ theorem loopback_step (ps : List LayerInfo) (l : Loopback) (os : List AnyObj) (h
     simp [Loopback.innerFor, info, PF_LLC, PF_INET, PF_INET6]
   | bad => rw [hn] at hlink; simp [Link] at hlink
 
+/-! ### MPLS and PPPoE (may sit below EthernetII / Dot1Q: padding can follow) -/
+
+theorem cxOf_innerSize_nil (ps : List LayerInfo) : (cxOf ps []).innerSize = 0 := rfl
+theorem cxOf_innerSize_raw (ps : List LayerInfo) (p : Bytes) : (cxOf ps [.raw p]).innerSize = p.length := by
+  simp [Ctx.innerSize, cxOf, infos, AnyObj.hdr, AnyObj.trl]
+
+theorem byteAt_append_zeros (p : Bytes) (k : Nat) : byteAt (p ++ List.replicate k 0) 0 = byteAt p 0 := by
+  cases p with
+  | nil => cases k <;> rfl
+  | cons a t => rfl
+
+/-- `mpls_reparse` with the bytes of an outer layer's padding behind the region -/
+theorem mpls_reparse_junk (cx : Ctx) (m : Mpls) (h : m.WF) (region : Bytes) (hr : 4 ≤ region.length) (junk : Bytes) :
+    ∃ out, m.write cx region = .ok out ∧ out.length = region.length ∧
+      Mpls.parse (out ++ junk) = .ok (Mpls.written cx m,
+        if region.length + junk.length > 4 then (Mpls.written cx m).innerFor (region.drop 4 ++ junk) else .none) := by
+  rcases writeAtStart_ok region _ 4 (mpls_headerBytes_length (Mpls.written cx m)) hr with ⟨hw, hlen, ht, hd⟩
+  refine ⟨_, by rw [mpls_write_eq]; exact hw, hlen, ?_⟩
+  have hb := mpls_headerBytes_length (Mpls.written cx m)
+  rw [mpls_parse_eq, List.length_append, hlen, List.append_assoc, take_append_len _ _ 4 hb, drop_append_len _ _ 4 hb,
+    mpls_ofHeader_headerBytes _ (mpls_written_wf cx m h)]
+  have h1 : ¬ region.length + junk.length < 4 := by omega
+  simp only [h1, if_false]
+
+theorem mpls_view_false (cx : Ctx) (m : Mpls) (h : m.WF) :
+    layerView false (.l2 (.mpls (Mpls.written cx m))) = layerView false (.l2 (.mpls m)) := by
+  have hv := mpls_written_view cx m h
+  simp only [Mpls.view, Prod.mk.injEq] at hv
+  simp [layerView, AnyObj.info, info, Mpls.fields, Fields.view, hv.1, hv.2.1, hv.2.2]
+
+theorem mpls_written_of_bottom (cx : Ctx) (m : Mpls) (h : m.bottomOfStack = 1) : Mpls.written cx m = m := by
+  unfold Mpls.written
+  split
+  · cases m with
+    | mk lh b2 ttl =>
+      simp only [Mpls.bottomOfStack] at h
+      simp only [Mpls.mk.injEq, true_and, and_true]
+      omega
+  · rfl
+
+/-- **MPLS step**: `k` zero bytes may follow, provided the label is not the outermost layer (`write_serialization` then
+    sets the bottom-of-stack bit of the last label, so the padding is not taken for another label) -/
+theorem mpls_step (ps : List LayerInfo) (m : Mpls) (os : List AnyObj) (hwf : m.WF) (hlink : Link (.mpls m) (next os))
+    (region io : Bytes) (k : Nat) (hk : k = 0 ∨ ps ≠ []) (hlen : region.length = 4 + (cxOf ps os).innerSize)
+    (hio : region.drop 4 = io) (hiol : io.length = (cxOf ps os).innerSize)
+    (hnil : os = [] → io = []) (hraw : ∀ p, os = [.raw p] → io = p) (hpos : ∀ y r, os = .l2 y :: r → 0 < io.length) :
+    ∃ out m' inner, m.write (cxOf ps os) region = .ok out ∧ out.length = region.length ∧
+      Mpls.parse (out ++ List.replicate k 0) = .ok (m', inner) ∧
+      layerView false (.l2 (.mpls m')) = layerView false (.l2 (.mpls m)) ∧
+      StepInner (.mpls m) (.mpls m') os io k inner := by
+  rcases mpls_reparse_junk (cxOf ps os) m hwf region (by omega) (List.replicate k 0) with ⟨out, hw, hl, hp⟩
+  rw [hio, List.length_replicate] at hp
+  refine ⟨out, _, _, hw, hl, hp, mpls_view_false _ m hwf, ?_⟩
+  unfold StepInner
+  cases hn : next os with
+  | none =>
+    have hos := next_none hn; subst hos
+    have hio0 := hnil rfl; subst hio0
+    have h0 := cxOf_innerSize_nil ps
+    refine ⟨k, Nat.le_refl _, ?_⟩
+    by_cases hk0 : k = 0
+    · subst hk0
+      have : ¬ region.length + 0 > 4 := by omega
+      left; exact ⟨if_neg this, rfl⟩
+    · have hps : ps ≠ [] := by rcases hk with h | h; exact absurd h hk0; exact h
+      have hgt : region.length + k > 4 := by omega
+      have hwr : Mpls.written (cxOf ps []) m = { m with b2 := m.b2 / 2 * 2 + 1 } := by
+        have : ps.isEmpty = false := by cases ps with | nil => exact absurd rfl hps | cons a t => rfl
+        simp [Mpls.written, cxOf, this, Ctx.innerCls, infos]
+      right
+      rw [if_pos hgt, hwr]
+      have hb : ({ m with b2 := m.b2 / 2 * 2 + 1 } : Mpls).bottomOfStack = 1 := by
+        simp only [Mpls.bottomOfStack]; omega
+      have hz : byteAt (List.replicate k (0 : UInt8)) 0 = 0 := by cases k <;> rfl
+      simp only [List.nil_append, Mpls.innerFor, hb, beq_self_eq_true, if_true, hz]
+      rfl
+  | raw p =>
+    have hos := next_raw hn; subst hos
+    have hio0 := hraw p rfl; subst hio0
+    rw [hn] at hlink
+    have hl3 : m.bottomOfStack = 1 ∧ byteAt io 0 / 16 ≠ 4 ∧ byteAt io 0 / 16 ≠ 6 := by simpa [Link] using hlink
+    rw [mpls_written_of_bottom _ m hl3.1] at hp ⊢
+    refine ⟨rfl, k, Nat.le_refl _, ?_⟩
+    have hsz := cxOf_innerSize_raw ps io
+    by_cases hgt : region.length + k > 4
+    · right
+      simp only [hgt, if_true, Mpls.innerFor, hl3.1, beq_self_eq_true, byteAt_append_zeros]
+      have h4 : (byteAt io 0 / 16 == 4) = false := by simpa using hl3.2.1
+      have h6 : (byteAt io 0 / 16 == 6) = false := by simpa using hl3.2.2
+      simp [h4, h6]
+    · left
+      have h1 : io.length = 0 := by omega
+      have h2 : k = 0 := by omega
+      have h3 : io = [] := List.eq_nil_of_length_eq_zero h1
+      subst h2; subst h3
+      exact ⟨if_neg hgt, rfl⟩
+  | l2 y r =>
+    have hos := next_l2 hn
+    rw [hn] at hlink
+    cases y <;> simp [Link] at hlink
+    rename_i m2
+    subst hos
+    have := hpos _ r rfl
+    have hgt : region.length + k > 4 := by omega
+    have hwr : Mpls.written (cxOf ps (.l2 (.mpls m2) :: r)) m = m := by
+      simp [Mpls.written, cxOf_innerCls_l2, info]
+    rw [hwr]
+    simp [hgt, Mpls.innerFor, hlink, info, EtherTier]
+  | bad => rw [hn] at hlink; simp [Link] at hlink
+
+theorem pppoe_view (p : PPPoE) (n : Nat) (b : Bool) :
+    layerView b (.l2 (.pppoe { p with payloadLength := n })) = layerView b (.l2 (.pppoe p)) := by
+  simp [layerView, AnyObj.info, info, PPPoE.fields, Fields.view, PPPoE.typedGetter, PPPoE.searchTag, PPPoE.vendorGetter]
+
+/-- **PPPoE step**: whatever padding follows the frame is cut off by the payload length `write_serialization` stores -/
+theorem pppoe_step (ps : List LayerInfo) (p : PPPoE) (os : List AnyObj) (hinv : p.Inv) (hlink : Link (.pppoe p) (next os))
+    (region io : Bytes) (k : Nat) (hlen : region.length = p.hdr + (cxOf ps os).innerSize)
+    (hio : region.drop p.hdr = io) (hraw : ∀ b, os = [.raw b] → io = b) :
+    ∃ out p' inner, p.write (cxOf ps os) region = .ok out ∧ out.length = region.length ∧
+      PPPoE.parse (out ++ List.replicate k 0) = .ok (p', inner) ∧
+      layerView false (.l2 (.pppoe p')) = layerView false (.l2 (.pppoe p)) ∧
+      StepInner (.pppoe p) (.pppoe p') os io k inner := by
+  have hsession : p.tags = [] → p.hdr = 6 := by
+    intro ht; simp [PPPoE.hdr, hinv.size, ht, PPPoE.tagsLen]
+  cases hn : next os with
+  | none =>
+    have hos := next_none hn; subst hos
+    rw [hn] at hlink
+    have hl2 : (p.code = 0 → p.tags = []) ∧ p.tagsSize < 65536 := by simpa [Link] using hlink
+    have h0 := cxOf_innerSize_nil ps
+    unfold StepInner
+    rw [hn]
+    by_cases hc : p.code = 0
+    · have h6 := hsession (hl2.1 hc)
+      rcases pppoe_reparse_session (cxOf ps []) p hinv hc (hl2.1 hc) (by omega) region (by omega) (List.replicate k 0) with
+        ⟨out, hw, hl, hp⟩
+      rw [h0] at hp
+      exact ⟨out, _, _, hw, hl, hp, pppoe_view p _ false, 0, Nat.zero_le _, .inl ⟨by simp, rfl⟩⟩
+    · rcases pppoe_reparse_discovery (cxOf ps []) p hinv hc hl2.2 rfl region (by omega) (List.replicate k 0) with
+        ⟨out, hw, hl, hp⟩
+      exact ⟨out, _, _, hw, hl, hp, pppoe_view p _ false, 0, Nat.zero_le _, .inl ⟨rfl, rfl⟩⟩
+  | raw b =>
+    have hos := next_raw hn; subst hos
+    rw [hn] at hlink
+    have hl3 : p.code = 0 ∧ p.tags = [] ∧ b.length < 65536 := by simpa [Link] using hlink
+    have hsz := cxOf_innerSize_raw ps b
+    have h6 := hsession hl3.2.1
+    unfold StepInner
+    rw [hn]
+    rcases pppoe_reparse_session (cxOf ps [.raw b]) p hinv hl3.1 hl3.2.1 (by omega) region (by omega) (List.replicate k 0) with
+      ⟨out, hw, hl, hp⟩
+    rw [← h6, hio] at hp
+    refine ⟨out, _, _, hw, hl, hp, pppoe_view p _ false, pppoe_view p _ _, 0, Nat.zero_le _, ?_⟩
+    have hb := hraw b rfl
+    subst hb
+    rw [hsz]
+    by_cases hpos : io.length > 0
+    · right; simp [hpos]
+    · left
+      have : io = [] := List.eq_nil_of_length_eq_zero (by omega)
+      subst this; simp
+  | l2 y r => rw [hn] at hlink; simp [Link] at hlink
+  | bad => rw [hn] at hlink; simp [Link] at hlink
+
 end Tins.Wire.L2
